@@ -78,8 +78,8 @@ def run(ctx):
         raise vlib.Inconclusive("model finding in TcpConn.tla / MC_TcpConn_C15.cfg: %s" % r.violated)
 
     rng = random.Random(ctx.seed)
-    behs = tc.gen(ctx, "Gen_TcpConn_C15.cfg", 2500 if q else 20000, seed=ctx.seed)
-    pick = tc.select(behs, 200 if q else 2000, lambda f: (f["hs"], f["tk"], f["bad"], f["rst"], f["dial"], min(f["trecv"] + f["crecv"], 2), f["tclose"], f["crst"],
+    behs = tc.gen(ctx, "Gen_TcpConn_C15.cfg", 2000 if q else 20000, seed=ctx.seed)
+    pick = tc.select(behs, 150 if q else 2000, lambda f: (f["hs"], f["tk"], f["bad"], f["rst"], f["dial"], min(f["trecv"] + f["crecv"], 2), f["tclose"], f["crst"],
                                                           min(f["after_close"], 2)), rng)
     cases, _, pr, hung = tc.run_family(ctx, "C15_", pick, label="c15-outcomes", par=8, prom=True, **tc.TIMED)
     if hung:
